@@ -3,7 +3,7 @@
 Simulated dimension: a re-entrancy schedule. The scenario decides which system, at which queue
 position and timestep, mutates the list the scheduler is walking; the recorded per-timestep
 history is checked against conditions (a)-(f) of DESIGN.md section 5/C05."""
-from .common import Model, Rec, RefSched, SystemNotFoundError, gen_flavour, gen_prio, gen_window, rec_class, spec_defaults
+from .common import SID, Model, Rec, RefSched, SystemNotFoundError, gen_flavour, gen_prio, gen_window, rec_class, spec_defaults
 
 PROPERTY = "C05"
 QUICK_RUNS = 24000
@@ -14,12 +14,12 @@ RULE = ("seeded re-entrancy schedules: 2-8 recording systems, 1-4 actor scripts 
         "effective mutation executed from inside a timestep while >=1 eligible system of the step's initial "
         "queue was still behind the actor; distinct = distinct abstract schedule shape (queue length, actor "
         "position, action kind, relative target position / priority relation per effective mutation)"
-        "; also: falsy systems (__len__ == 0 / __bool__ false), removal through the target's own clean_up(), systems that are bundled Collector / FileCollector objects, a system switched off-on-off within one turn, a registered system re-prioritised in mid-step (attribute assigned, removed, the same object re-added), instance identity (id#generation), hot swap of an id, nested stepping of another model from inside a system, systems with value-based __eq__")
+        "; also: falsy systems (__len__ == 0 / __bool__ false), removal through the target's own clean_up(), str-subclass ids, systems that are bundled Collector / FileCollector objects, a system switched off-on-off within one turn, a registered system re-prioritised in mid-step (attribute assigned, removed, the same object re-added), instance identity (id#generation), hot swap of an id, nested stepping of another model from inside a system, systems with value-based __eq__")
 COMPONENTS = {"real": ["ECAgent.Core.SystemManager (add_system, remove_system, execute_systems)", "ECAgent.Core.Model",
                        "ECAgent.Core.System.clean_up"],
               "stub": ["System.execute bodies are harness recording systems driven by the scenario script"]}
 PROBES = ["actor_first", "actor_middle", "actor_last", "target_before", "target_self", "target_after",
-          "new_higher", "new_equal", "new_lower", "two_mutations_one_step", "hot_swap_same_id", "other_model_stepped_mid_timestep", "systems_with_value_equality", "falsy_systems", "removed_via_targets_clean_up", "reprioritised_same_object", "systems_returning_values_from_execute", "switched_off_on_off_in_one_turn",
+          "new_higher", "new_equal", "new_lower", "two_mutations_one_step", "hot_swap_same_id", "other_model_stepped_mid_timestep", "systems_with_value_equality", "falsy_systems", "removed_via_targets_clean_up", "reprioritised_same_object", "systems_returning_values_from_execute", "switched_off_on_off_in_one_turn", "str_subclass_ids",
           "systems_that_are_bundled_collectors"]
 SHRINK_LISTS = ["scripts", "systems"]
 SHRINK_SKIP = ("end",)
@@ -80,7 +80,7 @@ def generate(rng, tier):
                             "via": rng.choice(["id", "clean_up"])})
             prio_of[tgt] = actions[-1]["prio"]
         scripts.append({"actor": actor, "t": t, "actions": actions})
-    return dict({"systems": systems, "scripts": scripts, "steps": steps}, **gen_flavour(rng))
+    return dict({"systems": systems, "scripts": scripts, "steps": steps, "strsub_ids": rng.random() < 0.12}, **gen_flavour(rng))
 
 
 class World:
@@ -99,10 +99,13 @@ class World:
         self.spec_of = {}
         self.other = None
         self.rec_cls = rec_class(sc, ctx)
+        self.strsub = bool(sc.get("strsub_ids"))
+        if self.strsub:
+            ctx.probe("str_subclass_ids")
         self.uid_of = {}      # id -> uid of the currently registered instance
 
     def mk(self, spec):
-        o = self.rec_cls(spec, self.model, self)
+        o = self.rec_cls(dict(spec, id=SID(spec["id"])) if self.strsub else spec, self.model, self)
         self.gen += 1
         o.uid = f"{spec['id']}#{self.gen}"       # instance identity: a re-registered id is a different system
         self.spec_of[o.uid] = spec
